@@ -813,9 +813,11 @@ pub proof fn lemma_lits()
 pub proof fn lemma_kw_first()
     ensures K_LBRACK().len() == 1 && K_LBRACK()[0] == 91, K_LPAREN().len() == 1 && K_LPAREN()[0] == 40, K_LT().len() == 1 && K_LT()[0] == 60,
         K_TRUE().len() == 4 && K_TRUE()[0] == 116, K_FALSE().len() == 5 && K_FALSE()[0] == 102, K_NULL().len() == 4 && K_NULL()[0] == 110,
-        K_SLASH().len() == 1 && K_SLASH()[0] == 47,
+        K_SLASH().len() == 1 && K_SLASH()[0] == 47, K_LTLT().len() == 2, K_GTGT().len() == 2, K_RBRACK().len() == 1, K_R().len() == 1,
+        K_STREAM().len() == 6, K_ENDSTREAM().len() == 9, K_OBJ().len() == 3, K_ENDOBJ().len() == 6,
 {
     reveal(K_LBRACK); reveal(K_LPAREN); reveal(K_LT); reveal(K_TRUE); reveal(K_FALSE); reveal(K_NULL); reveal(K_SLASH);
+    reveal(K_LTLT); reveal(K_GTGT); reveal(K_RBRACK); reveal(K_R); reveal(K_STREAM); reveal(K_ENDSTREAM); reveal(K_OBJ); reveal(K_ENDOBJ);
 }
 // 7.3.5 names: "#" followed by two hexadecimal digits stands for the byte with that code
 #[verifier::opaque]
@@ -855,8 +857,18 @@ pub proof fn lemma_name_dec_prefix(s: Seq<u8>, k: int)
 /// the first "#" at k, followed by two hexadecimal digits
 pub proof fn lemma_name_dec_escape(s: Seq<u8>, k: int)
     ensures (0 <= k && k + 3 <= s.len() && (forall|i: int| 0 <= i < k ==> s[i] != 35) && s[k] == 35 && hexval(s[k + 1]) is Some && hexval(s[k + 2]) is Some)
-        ==> name_dec(s) == opt_prepend(s.subrange(0, k).push((hexval(s[k + 1]).unwrap() * 16 + hexval(s[k + 2]).unwrap()) as u8), name_dec(s.subrange(k + 3, s.len() as int)))
+        ==> name_dec(s) == opt_prepend(s.subrange(0, k).push((hexval(s[k + 1]).unwrap() * 16 + hexval(s[k + 2]).unwrap()) as u8), name_dec(s.subrange(k + 3, s.len() as int))),
+        // "#" not followed by two hexadecimal digits: not a name
+        (0 <= k < s.len() && (forall|i: int| 0 <= i < k ==> s[i] != 35) && s[k] == 35 && !(k + 3 <= s.len() && hexval(s[k + 1]) is Some && hexval(s[k + 2]) is Some))
+        ==> name_dec(s) is None,
 {
+    if 0 <= k < s.len() && (forall|i: int| 0 <= i < k ==> s[i] != 35) && s[k] == 35 && !(k + 3 <= s.len() && hexval(s[k + 1]) is Some && hexval(s[k + 2]) is Some) {
+        reveal_with_fuel(name_dec, 2);
+        lemma_name_dec_prefix(s, k);
+        let u = s.subrange(k, s.len() as int);
+        assert(u[0] == 35);
+        if k + 3 <= s.len() { assert(u[1] == s[k + 1] && u[2] == s[k + 2]); }
+    }
     if 0 <= k && k + 3 <= s.len() && (forall|i: int| 0 <= i < k ==> s[i] != 35) && s[k] == 35 && hexval(s[k + 1]) is Some && hexval(s[k + 2]) is Some {
         reveal_with_fuel(name_dec, 2);
         lemma_name_dec_prefix(s, k);
@@ -887,7 +899,7 @@ pub open spec fn key_dec(s: Seq<u8>) -> Option<Seq<u8>> {
 // 7.3.4.2 literal strings: the value is the sequence of lexemes up to the closing parenthesis
 // (`*_def` is the defining equation; the function itself is opaque and unfolded through `lemma_*_unfold` where needed)
 #[verifier::opaque]
-pub open spec fn lit_str(b: Seq<u8>, pos: int, nested: int) -> Option<(Seq<u8>, int)> decreases b.len() - pos, 1nat {
+pub open spec fn lit_str(b: Seq<u8>, pos: int, nested: int) -> Option<(Seq<u8>, int)> decreases b.len() - pos {
     let st = lit_step(b, pos, nested);
     if st.eof || st.trunc || !depth_fits(st.nested) || st.pos <= pos || st.pos > b.len() { None }
     else { match st.out {
@@ -907,7 +919,7 @@ pub proof fn lemma_lit_unfold(b: Seq<u8>, pos: int, nested: int)
 { reveal_with_fuel(lit_str, 1); }
 // 7.3.4.3 hexadecimal strings
 #[verifier::opaque]
-pub open spec fn hex_str(b: Seq<u8>, pos: int) -> Option<(Seq<u8>, int)> decreases b.len() - pos, 1nat {
+pub open spec fn hex_str(b: Seq<u8>, pos: int) -> Option<(Seq<u8>, int)> decreases b.len() - pos {
     let st = hex_step(b, pos);
     if st.eof || st.bad || st.pos <= pos || st.pos > b.len() { None }
     else { match st.out {
@@ -954,11 +966,16 @@ pub open spec fn stream_at<R: Resolve>(r: &R, e: Env, m: Map<Seq<u8>, Val>, q: i
             if e.buf.subrange(t.0, t.1) == K_ENDSTREAM() { Some((Val::Stream(m, c.id, e.base + d, e.base + d + n), t.1)) } else { None } } } } } } }
 }
 
+/// a stream needs the context of an indirect object, and its value is a stream
+pub broadcast proof fn b_stream_kind<R: Resolve>(r: &R, e: Env, m: Map<Seq<u8>, Val>, q: int)
+    ensures match #[trigger] stream_at(r, e, m, q) { Some(x) => x.0 is Stream && e.ctx is Some, None => true }
+{ reveal(stream_at); }
+
 /// the object at p (after white-space and comments), nesting budget d: Some((value, position just past its last token));
 /// None = not an object in the sense of 7.3 / outside the implementation limits (nothing demanded)
 #[verifier::opaque]
 pub open spec fn obj_at<R: Resolve>(r: &R, e: Env, p: int, d: nat) -> Option<(Val, int)>
-    decreases d, e.buf.len() - p, 1nat
+    decreases d, e.buf.len() - p, 0nat
 {
     match tok(e.buf, p) { None => None, Some(t1) => {
         let w = e.buf.subrange(t1.0, t1.1);
@@ -995,7 +1012,7 @@ pub open spec fn obj_at<R: Resolve>(r: &R, e: Env, p: int, d: nat) -> Option<(Va
 }
 pub proof fn lemma_obj_unfold<R: Resolve>(r: &R, e: Env, p: int, d: nat)
     ensures obj_at(r, e, p, d) == obj_def(r, e, p, d)
-{ reveal_with_fuel(obj_at, 1); }
+{ reveal_with_fuel(obj_at, 1); reveal_with_fuel(arr_at, 1); reveal_with_fuel(dict_at, 1); }
 pub open spec fn obj_def<R: Resolve>(r: &R, e: Env, p: int, d: nat) -> Option<(Val, int)>
 
 {
@@ -1042,7 +1059,7 @@ pub open spec fn ref_tail(buf: Seq<u8>, p: int) -> Option<(int, int, int)> {
 /// 7.3.6: the elements of an array up to `]`; p = just after `[` or after an element
 #[verifier::opaque]
 pub open spec fn arr_at<R: Resolve>(r: &R, e: Env, p: int, d: nat) -> Option<(Seq<Val>, int)>
-    decreases d, e.buf.len() - p, 3nat
+    decreases d, e.buf.len() - p, 1nat
 {
     match tok(e.buf, p) { None => None, Some(t1) =>
         if e.buf.subrange(t1.0, t1.1) == K_RBRACK() { Some((Seq::<Val>::empty(), t1.1)) } else {
@@ -1052,7 +1069,7 @@ pub open spec fn arr_at<R: Resolve>(r: &R, e: Env, p: int, d: nat) -> Option<(Se
 }
 pub proof fn lemma_arr_unfold<R: Resolve>(r: &R, e: Env, p: int, d: nat)
     ensures arr_at(r, e, p, d) == arr_def(r, e, p, d)
-{ reveal_with_fuel(arr_at, 1); }
+{ reveal_with_fuel(obj_at, 1); reveal_with_fuel(arr_at, 1); reveal_with_fuel(dict_at, 1); }
 pub open spec fn arr_def<R: Resolve>(r: &R, e: Env, p: int, d: nat) -> Option<(Seq<Val>, int)>
 
 {
@@ -1065,7 +1082,7 @@ pub open spec fn arr_def<R: Resolve>(r: &R, e: Env, p: int, d: nat) -> Option<(S
 /// 7.3.7: key/value pairs up to `>>`; a later duplicate key replaces the earlier value; acc = the entries read so far
 #[verifier::opaque]
 pub open spec fn dict_at<R: Resolve>(r: &R, e: Env, p: int, d: nat, acc: Map<Seq<u8>, Val>) -> Option<(Map<Seq<u8>, Val>, int)>
-    decreases d, e.buf.len() - p, 3nat
+    decreases d, e.buf.len() - p, 1nat
 {
     match tok(e.buf, p) { None => None, Some(t1) => {
         let w = e.buf.subrange(t1.0, t1.1);
@@ -1081,7 +1098,7 @@ pub open spec fn dict_at<R: Resolve>(r: &R, e: Env, p: int, d: nat, acc: Map<Seq
 }
 pub proof fn lemma_dict_unfold<R: Resolve>(r: &R, e: Env, p: int, d: nat, acc: Map<Seq<u8>, Val>)
     ensures dict_at(r, e, p, d, acc) == dict_def(r, e, p, d, acc)
-{ reveal_with_fuel(dict_at, 1); }
+{ reveal_with_fuel(obj_at, 1); reveal_with_fuel(arr_at, 1); reveal_with_fuel(dict_at, 1); }
 pub open spec fn dict_def<R: Resolve>(r: &R, e: Env, p: int, d: nat, acc: Map<Seq<u8>, Val>) -> Option<(Map<Seq<u8>, Val>, int)>
 
 {
